@@ -3,6 +3,8 @@ package main
 // instr.go — one case per go/ssa instruction kind.
 
 import (
+	"sort"
+	"os"
 	"fmt"
 	"go/token"
 	"go/types"
@@ -218,9 +220,76 @@ func (ex *Exec) newObject(hint string) Term {
 	for _, k := range ex.top.known {
 		ts = append(ts, not(eq(a, k)), not(eq(a, app("froot", k))))
 	}
+	// every reference value obtained (loaded, returned by a call) before this
+	// allocation is older than it: addresses are abstract and may be taken
+	// to be ordered by allocation time
+	for _, k := range ex.top.recent {
+		ts = append(ts, app(">", a, k))
+	}
+	ex.top.recent = nil
+	ex.top.recentSeen = map[Term]bool{}
+	if ex.top.fc != nil && ex.top.fc.Options["heap-order"] != "" {
+		// opt-in, quantified form of the same fact: no reference stored
+		// anywhere in the heap (pointer cells, map values) is the new object
+		var ks []string
+		for k := range memSorts {
+			ks = append(ks, k)
+		}
+		sort.Strings(ks)
+		for _, k := range ks {
+			so := memSorts[k]
+			_, touched := ex.cur.m[k]
+			if !touched && !c.memDecl["|"+k+"|"] {
+				continue
+			}
+			m := c.memRaw(ex.cur, k)
+			switch {
+			case so == arrSort(SRef, SRef):
+				c.hasQ = true
+				ts = append(ts, fmt.Sprintf("(forall ((ha Int)) (! (< (select %s ha) %s) :pattern ((select %s ha))))", m, a, m))
+			case strings.HasPrefix(k, "Mmap ") && strings.Contains(k, " val") && strings.HasSuffix(so, " "+SRef+"))"):
+				inner := so[len("(Array Int (Array ") : len(so)-len(" "+SRef+"))")]
+				c.hasQ = true
+				ts = append(ts, fmt.Sprintf("(forall ((hm Int) (hk %s)) (! (< (select (select %s hm) hk) %s) :pattern ((select (select %s hm) hk))))", inner, m, a, m))
+			}
+		}
+	}
 	c.assume(and(ts...))
 	*ex.top.allocs = append(*ex.top.allocs, a)
 	return a
+}
+
+// noteRefs records the reference leaves of a value that exists now, for the
+// ordering fact asserted at the next allocation.
+func (ex *Exec) noteRefs(v Val) {
+	t := ex.top
+	if os.Getenv("VCGEN_NORECENT") != "" {
+		return
+	}
+	if t.recentSeen == nil {
+		t.recentSeen = map[Term]bool{}
+	}
+	var walk func(x Val)
+	walk = func(x Val) {
+		switch x.K {
+		case KRef:
+			if x.T == "0" || x.T == "" || t.recentSeen[x.T] || len(t.recent) > 64 {
+				return
+			}
+			for _, tok := range sexprTokens(x.T) {
+				if ex.c.bound[tok] {
+					return
+				}
+			}
+			t.recentSeen[x.T] = true
+			t.recent = append(t.recent, x.T)
+		case KStruct, KTuple:
+			for _, f := range x.Fields {
+				walk(f)
+			}
+		}
+	}
+	walk(v)
 }
 
 func isCountType(t types.Type) bool {
@@ -417,6 +486,7 @@ func (ex *Exec) unop(in *ssa.UnOp, r Term) {
 		v := c.load(ex.cur, x.T, et)
 		v.Typ = in.Type()
 		c.assume(imp(r, ex.v.wfAssume(c, v)))
+		ex.noteRefs(v)
 		ex.set(in, v)
 	case token.NOT:
 		ex.set(in, boolVal(not(x.T)))
